@@ -60,6 +60,9 @@ type c02Case struct {
 	// about 5 s: "rename" (moved away, a shorter new file appears under the
 	// name: log rotation) or "unlink". The open file is read to its end.
 	Rotate string
+	// Refused: the wildcard also matches a sub-directory and a dangling symbolic link (paths the server refuses to
+	// read): they are answered with an error message, everything else is delivered and the session ends.
+	Refused bool
 }
 
 func c02Line(file, seq int, hit bool, padLen int) string {
@@ -319,6 +322,11 @@ func c02Gen(rng *rand.Rand, i int, dir string) *c02Case {
 		c.Files = append(c.Files, c02File{ID: f, Lines: n, Path: p})
 	}
 	c.Glob = nFiles > 1 && rng.Intn(2) == 0
+	if c.Glob && rng.Intn(3) == 0 {
+		c.Refused = true
+		os.Mkdir(filepath.Join(d, "zz-subdir.log"), 0755)
+		os.Symlink("/nonexistent/target", filepath.Join(d, "zz-dangling.log"))
+	}
 	c.SSH = rng.Intn(3) == 0
 	c.Limit = []int{1, 2, 50}[rng.Intn(3)]
 	c.PipeSize = []int{4096, 4096, 65536}[rng.Intn(3)]
@@ -728,6 +736,17 @@ func c02Run(r *vlib.Run, i int, c *c02Case, cfgs map[int]string, free chan *c02S
 		if c02TailZ(f.ID, f.Lines) && c.Mode == "cat" {
 			wantZ++
 		}
+	}
+	if c.Refused {
+		r.Count("sessions_whose_wildcard_also_matches_paths_the_server_refuses", 1)
+		var keep []string
+		for _, m := range obs.malformed {
+			if strings.HasPrefix(m, "SERVER|") && (strings.Contains(m, "No permission to read file") || strings.Contains(m, "Unable to evaluate symlinks") || strings.Count(m, "|") == 2) {
+				continue // the server's answer about a refused path is not content
+			}
+			keep = append(keep, m)
+		}
+		obs.malformed = keep
 	}
 	if c.Rotate != "" {
 		// the server's own message about the state of the file at the end of
